@@ -219,16 +219,8 @@ impl Value {
     pub fn iter_items(self) -> Vec<Self> {
         match self {
             Self::ArgList(args) => {
+                // The keyword arguments are not elements of the list.
                 let mut vec = args.positional;
-                // I'm not sure that including the named arguments after the
-                // positional is the right thing to do here.
-                vec.extend(args.named.into_iter().map(|(k, v)| {
-                    Self::List(
-                        vec![Self::from(k.as_ref()), v],
-                        Some(ListSeparator::Space),
-                        false,
-                    )
-                }));
                 if args.trailing_comma {
                     vec.push(Self::Null);
                 }
